@@ -134,6 +134,26 @@ Definition prop_encode (p : prop) : option bytes :=
       end
   end.
 
+(* what the serializer is handed for one property: the whole encoding when every field is encodable; otherwise the
+   identifier (and, for a pair, its first string) go out before the failing field raises the custom error — so
+   that a buffer too small for the identifier already fails with the memory error, as the Rust serializer does *)
+Definition prop_chunks (p : prop) : list (option bytes) :=
+  match prop_encode p with
+  | Some bs => [Some bs]
+  | None =>
+      match varint_write (kind_id (pk p)) with
+      | None => [None]
+      | Some idb =>
+          match kind_shape (pk p) with
+          | ShPair => match len_prefixed (pdata p) with
+                      | Some a => [Some idb; Some a; None]
+                      | None => [Some idb; None]
+                      end
+          | _ => [Some idb; None]
+          end
+      end
+  end.
+
 (* The three representations of `Properties`. *)
 Inductive properties :=
 | PSlice (ps : list prop)
